@@ -8,7 +8,7 @@ EXPLANATION = ("Structure of the certificate bookkeeping on every path: every se
                "the slots the cvxpy recovery skips (R-SLOTS); sign parity of the Lagrangian across the reconstruction and the MOSEK dual transformation "
                "(R-SIGN); dual mode returns the constant of the identity (R-RET); every LMI whose entry-equality multipliers are dropped is symmetric as "
                "written (R-LMIDUAL)."
-               ' Also: the residual comes from the single capture before any dimension reduction (R-ORDER), every tracked object contributes to the reconstruction, and the dictionary helpers the constant is read through are interpreted per key class.')
+               ' Also: the residual comes from the single capture before any dimension reduction (R-ORDER), every tracked object contributes to the reconstruction, the dictionary helpers the constant is read through are interpreted per key class, and each back-end hands the solver the constraint as written -- translation compared with zero, no rescaling -- so that the multiplier reported by the solver is the multiplier of the constraint in the identity (R-SENSE).')
 TRUSTED = ["CPython ast", "cvxpy dual sign convention for <= / == / >> constraints of a maximisation problem", "MOSEK: y and -barsj are the multipliers in that convention"]
 ASSUMPTIONS = ["non-negativity / positive semidefiniteness of the numbers and 'up to solver tolerance' are not decided"]
 
@@ -18,6 +18,7 @@ def run(ctx):
     wrappers.r_track(ctx)
     wrappers.r_slots(ctx)
     wrappers.r_sign(ctx)
+    wrappers.r_sense(ctx)       # the solver constraint is the constraint as written, unscaled: its multiplier is the constraint's multiplier
     pepsolve.r_ret(ctx)
     pepsolve.r_order(ctx)
     dictops.r_dictops(ctx)      # the constant of the identity is read from prune(symmetrize(decomposition))
